@@ -98,11 +98,17 @@ struct Mon {
 	void cmp_trans(const SutTrans& t, const Req* r, const char* what, const char* prop, const char* clause, const HookEv& e) {
 		Req none; if (!r) r = &none;
 		if (!r->has) {
-			if (t.valid) viol(prop, clause, std::string(what) + " seen in " + ev_str(e) + " is " + tr_str(t) + " but none is expected");
+			if (t.valid) {
+				viol(prop, clause, std::string(what) + " seen in " + ev_str(e) + " is " + tr_str(t) + " but none is expected");
+				if (r == &T.slot && T.last_consumed.has && t.dest == T.last_consumed.dest && t.origin == T.last_consumed.origin)
+					viol("C02", "processed-request-is-consumed", "the request " + req_str(T.last_consumed) + " was already taken up by a processing round but is still outstanding in " + ev_str(e) + " (it would be applied again)");
+			}
 			return;
 		}
 		if (!t.valid || t.dest != r->dest) { viol(prop, clause, std::string(what) + " seen in " + ev_str(e) + " is " + tr_str(t) + ", expected " + req_str(*r)); return; }
 		if (t.origin != r->origin) viol("C06", "request-origin", std::string(what) + " seen in " + ev_str(e) + " has origin " + sid(t.origin) + ", the request was made by " + sid(r->origin));
+		if (r->from_task && ((t.has_payload != 0) != r->has_payload || (r->has_payload && memcmp(t.payload, r->payload, g_info->payload_vsize) != 0)))
+			viol("C08", "request-carries-task-payload", std::string(what) + " seen in " + ev_str(e) + " for the request issued by plan task " + req_str(*r) + " does not carry exactly the task's payload");
 		if ((t.has_payload != 0) != r->has_payload) viol("C07", "payload-presence", std::string(what) + " seen in " + ev_str(e) + (t.has_payload ? " exposes a payload although the request had none" : " exposes no payload although the request carried one"));
 		else if (r->has_payload && memcmp(t.payload, r->payload, g_info->payload_vsize) != 0) viol("C07", "payload-value", std::string(what) + " seen in " + ev_str(e) + " carries a payload different from the one supplied with " + req_str(*r));
 	}
@@ -136,7 +142,11 @@ struct Mon {
 		// --- C06: request
 		cmp_trans(e.request, &T.slot, "control.request()", "C06", "request-view", e);
 		// --- guards: pending + current; others: current
-		if (e.has_pending) cmp_trans(e.pending, cx.pending, "pendingTransition()", "C03", "pending-is-request", e);
+		if (e.has_pending) {
+			const size_t nv = out.size();
+			cmp_trans(e.pending, cx.pending, "pendingTransition()", "C03", "pending-is-request", e);
+			if (out.size() > nv) viol("C06", "pending-view", "pendingTransition() inside " + ev_str(e) + " is " + tr_str(e.pending) + ", the request under evaluation in this round is " + (cx.pending ? req_str(*cx.pending) : std::string("(none)")));
+		}
 		if (e.has_current) cmp_trans(e.current, cx.current, "currentTransition()", "C06", "current-view", e);
 		// --- the transition history as seen through a control: stable (= what the last step left) in phase callbacks and query
 		if (e.has_previous && (cx.phase || e.method == M_QUERY) && T.prev_known) {
@@ -197,8 +207,14 @@ struct Mon {
 		case A_NONE: break;
 		case A_CANCEL: cx.cancelled = true; explog(LOG_CANCELLED, e.state_id, 0, hi + 1); mark_nontrivial("guard_vetoes"); break;
 		case A_CHANGE_TO: case A_CHANGE_WITH:
-			T.slot.has = true; T.slot.origin = e.state_id; T.slot.dest = a.a; T.slot.has_payload = a.kind == A_CHANGE_WITH;
-			memset(T.slot.payload, 0, SUT_MAX_PAYLOAD); if (T.slot.has_payload) memcpy(T.slot.payload, a.payload, SUT_MAX_PAYLOAD);
+			{
+				// aliasing changeWith: the payload passed is the outstanding request's own; the new request must carry that value
+				const bool alias = a.kind == A_CHANGE_WITH && a.mask[29] && T.slot.has && T.slot.has_payload;
+				uint8_t keep[SUT_MAX_PAYLOAD]; memcpy(keep, T.slot.payload, SUT_MAX_PAYLOAD);
+				T.slot.has = true; T.slot.from_task = false; T.slot.origin = e.state_id; T.slot.dest = a.a; T.slot.has_payload = a.kind == A_CHANGE_WITH;
+				memset(T.slot.payload, 0, SUT_MAX_PAYLOAD); if (T.slot.has_payload) memcpy(T.slot.payload, alias ? keep : a.payload, SUT_MAX_PAYLOAD);
+				if (alias) mark_nontrivial("aliasing_change_with");
+			}
 			explog(LOG_TRANSITION, e.state_id, a.a, hi + 1);
 			if (e.flavour == CF_GUARD) mark_nontrivial("guard_redirects"); else g_stats.hit("callback_requests");
 			break;
@@ -328,10 +344,10 @@ struct Mon {
 				if (!vis_exit && !vis_entry) { if (absorbable) { ambiguous = true; alt = survivor; } }
 				else if (!round_starts) {
 					if (!absorbable) dropped_request(R, survivor);
-					T.slot.clear(); ++rounds; g_stats.hit("duplicate_requests_absorbed"); continue;
+					T.last_consumed = R; T.slot.clear(); ++rounds; g_stats.hit("duplicate_requests_absorbed"); continue;
 				}
 			}
-			T.slot.clear(); ++rounds;
+			T.last_consumed = R; T.slot.clear(); ++rounds;
 			Ctx cx; cx.pending = &R; cx.current = &survivor; cx.expect_active = T.open; cx.prop = "C03"; cx.clause = "guards-consulted";
 			if (rounds >= 2) g_stats.hit("guard_rounds_2plus");
 			if (!delivery(M_EXIT_GUARD, T.open, cx)) return;
@@ -433,7 +449,7 @@ struct Mon {
 			}
 			if (a >= 0 && !bit_get(T.mayS, static_cast<unsigned>(a))) viol("C08", "fires-only-on-success", "a task of origin " + S(a) + " fired without an outstanding success report for that state");
 			const SutTask& last = P0[fired.back()];
-			T.slot.has = true; T.slot.origin = last.origin; T.slot.dest = last.dest; T.slot.has_payload = last.has_payload != 0;
+			T.slot.has = true; T.slot.from_task = true; T.slot.origin = last.origin; T.slot.dest = last.dest; T.slot.has_payload = last.has_payload != 0;
 			memset(T.slot.payload, 0, SUT_MAX_PAYLOAD); if (last.has_payload) memcpy(T.slot.payload, last.payload, SUT_MAX_PAYLOAD);
 			T.mirror = P1;
 			if (a >= 0) { bit_set(T.mayS, static_cast<unsigned>(a), false); bit_set(T.mustS, static_cast<unsigned>(a), false); }
@@ -656,12 +672,12 @@ struct Mon {
 		case OP_REACT: op_cycle(true); break;
 		case OP_QUERY: op_query(); expect_unchanged = true; break;
 		case OP_CHANGE_TO: case OP_CHANGE_WITH:
-			T.slot.has = true; T.slot.origin = SUT_INVALID; T.slot.dest = static_cast<uint8_t>(x.a); T.slot.has_payload = k == OP_CHANGE_WITH;
+			T.slot.has = true; T.slot.from_task = false; T.slot.origin = SUT_INVALID; T.slot.dest = static_cast<uint8_t>(x.a); T.slot.has_payload = k == OP_CHANGE_WITH;
 			memset(T.slot.payload, 0, SUT_MAX_PAYLOAD); if (T.slot.has_payload) memcpy(T.slot.payload, x.payload, SUT_MAX_PAYLOAD);
 			explog(LOG_TRANSITION, SUT_INVALID, x.a, 0); expect_no_hooks = true; expect_unchanged = true; g_stats.hit("external_requests");
 			break;
 		case OP_IMM_CHANGE_TO: case OP_IMM_CHANGE_WITH:
-			T.slot.has = true; T.slot.origin = SUT_INVALID; T.slot.dest = static_cast<uint8_t>(x.a); T.slot.has_payload = k == OP_IMM_CHANGE_WITH;
+			T.slot.has = true; T.slot.from_task = false; T.slot.origin = SUT_INVALID; T.slot.dest = static_cast<uint8_t>(x.a); T.slot.has_payload = k == OP_IMM_CHANGE_WITH;
 			memset(T.slot.payload, 0, SUT_MAX_PAYLOAD); if (T.slot.has_payload) memcpy(T.slot.payload, x.payload, SUT_MAX_PAYLOAD);
 			explog(LOG_TRANSITION, SUT_INVALID, x.a, 0);
 			processing();
@@ -717,6 +733,7 @@ struct Mon {
 			viol(prop, clause, "unexpected callback " + ev_str(e) + (expect_no_hooks ? " during an operation that must not run callbacks" : " after everything this call should have delivered"));
 			if (e.method == last_method && e.cls == last_cls && (n_inj(e.cls) > 0 || own_inj(e.cls)))
 				viol("C15", "each-once", ev_str(e) + " ran once more than the delivery of " + METHOD_NAMES[e.method] + " to state " + sid(e.cls) + " (injections + state, each exactly once) allows");
+			if (k == OP_COPY) { viol("C17", "copy-runs-no-callbacks", "copy construction ran " + ev_str(e) + ": a copy must be equal to the original at the moment of copying, not re-activated"); viol("C01", "lifecycle-pairing", "copy construction ran " + ev_str(e) + " although the copied machine is already active"); }
 			if (guard && (k == OP_LOAD || k == OP_REPLAY_TRANSITION || k == OPX_REPLAY_MSG)) viol("C03", "no-guards-on-replay-load", "guard " + ev_str(e) + " consulted during load/replay");
 			stop = true;
 		}
